@@ -521,12 +521,13 @@ impl Router {
                 if let Some(cursor) = retransmissions.get(&request.filter_idx) {
                     request.cursor = *cursor;
                     // reset the group cursor
-                    if let Some(group_name) = &request.group {
-                        // TODO: Test this more
-                        self.shared_subscriptions
-                            .get_mut(group_name)
-                            .expect("group must exists")
-                            .cursor = *cursor;
+                    // the group is gone when this was its last member
+                    if let Some(group) = request
+                        .group
+                        .as_ref()
+                        .and_then(|name| self.shared_subscriptions.get_mut(name))
+                    {
+                        group.cursor = *cursor;
                     }
                 }
             }
